@@ -4,7 +4,7 @@ set -u
 P=$1; shift
 cd /repo || exit 9
 if [ -n "$(git status --porcelain)" ]; then echo "/repo not clean"; exit 9; fi
-if [[ "$P" == *.rev ]]; then git apply -R "${P%.rev}"; else git apply "$P"; fi || { echo "patch does not apply"; exit 9; }
+if [[ "$P" == *.rev ]]; then git apply -R "${P%.rev}"; else git apply "$P" 2>/dev/null || git apply --3way "$P"; fi || { echo "patch does not apply"; exit 9; }
 trap 'cd /repo && git checkout -q -- . && git clean -fdq' EXIT
 cd /verif
 for p in "$@"; do
